@@ -685,6 +685,11 @@ func (client *client) any() *Broker {
 		return client.seedBrokers[0]
 	}
 
+	if broker := verifPickBroker(client.brokers); broker != nil {
+		_ = broker.Open(client.conf)
+		return broker
+	}
+
 	// not guaranteed to be random *or* deterministic
 	for _, broker := range client.brokers {
 		_ = broker.Open(client.conf)
